@@ -1,0 +1,131 @@
+//go:build verif
+
+package serf
+
+import "time"
+
+// Encoders for the unexported gossip message structs and query filters, and a
+// switch for the join-ignore flag, used only by the verification harness
+// (/verif). Compiled only with -tags verif. Every function is a thin wrapper
+// around the package's own encodeMessage / encodeFilter / decodeMessage.
+
+// Query flag bits, as on the wire.
+const (
+	VerifQueryFlagAck         = queryFlagAck
+	VerifQueryFlagNoBroadcast = queryFlagNoBroadcast
+)
+
+// VerifUserEvent is one buffered user event of a push/pull image.
+type VerifUserEvent struct {
+	Name    string
+	Payload []byte
+}
+
+// VerifUserEvents is one slot of the event buffer image carried by push/pull.
+type VerifUserEvents struct {
+	LTime  uint64
+	Events []VerifUserEvent
+}
+
+// VerifEncodeUserEvent encodes a messageUserEvent exactly as UserEvent() does.
+func VerifEncodeUserEvent(ltime uint64, name string, payload []byte, cc bool) ([]byte, error) {
+	msg := messageUserEvent{LTime: LamportTime(ltime), Name: name, Payload: payload, CC: cc}
+	return encodeMessage(messageUserEventType, &msg, false)
+}
+
+// VerifQuery mirrors messageQuery.
+type VerifQuery struct {
+	LTime       uint64
+	ID          uint32
+	Addr        []byte
+	Port        uint16
+	SourceNode  string
+	Filters     [][]byte
+	Flags       uint32
+	RelayFactor uint8
+	Timeout     time.Duration
+	Name        string
+	Payload     []byte
+}
+
+// VerifEncodeQuery encodes a messageQuery exactly as Query() does.
+func VerifEncodeQuery(q VerifQuery) ([]byte, error) {
+	msg := messageQuery{
+		LTime:       LamportTime(q.LTime),
+		ID:          q.ID,
+		Addr:        q.Addr,
+		Port:        q.Port,
+		SourceNode:  q.SourceNode,
+		Filters:     q.Filters,
+		Flags:       q.Flags,
+		RelayFactor: q.RelayFactor,
+		Timeout:     q.Timeout,
+		Name:        q.Name,
+		Payload:     q.Payload,
+	}
+	return encodeMessage(messageQueryType, &msg, false)
+}
+
+// VerifEncodePushPull encodes a messagePushPull as LocalState() does. A nil entry
+// of events is an empty buffer slot.
+func VerifEncodePushPull(ltime uint64, statusLTimes map[string]uint64, left []string,
+	eventLTime uint64, events []*VerifUserEvents, queryLTime uint64) ([]byte, error) {
+	pp := messagePushPull{
+		LTime:        LamportTime(ltime),
+		StatusLTimes: make(map[string]LamportTime, len(statusLTimes)),
+		LeftMembers:  left,
+		EventLTime:   LamportTime(eventLTime),
+		QueryLTime:   LamportTime(queryLTime),
+	}
+	for k, v := range statusLTimes {
+		pp.StatusLTimes[k] = LamportTime(v)
+	}
+	for _, e := range events {
+		if e == nil {
+			pp.Events = append(pp.Events, nil)
+			continue
+		}
+		ue := &userEvents{LTime: LamportTime(e.LTime)}
+		for _, x := range e.Events {
+			ue.Events = append(ue.Events, userEvent{Name: x.Name, Payload: x.Payload})
+		}
+		pp.Events = append(pp.Events, ue)
+	}
+	return encodeMessage(messagePushPullType, &pp, false)
+}
+
+// VerifEncodeFilterNode encodes a node-name filter as Query() does.
+func VerifEncodeFilterNode(names []string) ([]byte, error) {
+	return encodeFilter(filterNodeType, filterNode(names))
+}
+
+// VerifEncodeFilterTag encodes a tag filter as Query() does.
+func VerifEncodeFilterTag(tag, expr string) ([]byte, error) {
+	return encodeFilter(filterTagType, &filterTag{Tag: tag, Expr: expr})
+}
+
+// VerifQueryResponse mirrors messageQueryResponse.
+type VerifQueryResponse struct {
+	LTime   uint64
+	ID      uint32
+	From    string
+	Flags   uint32
+	Payload []byte
+}
+
+// VerifDecodeQueryResponse decodes a serf message (type byte first) that must be
+// a query response.
+func VerifDecodeQueryResponse(buf []byte) (VerifQueryResponse, bool) {
+	if len(buf) == 0 || messageType(buf[0]) != messageQueryResponseType {
+		return VerifQueryResponse{}, false
+	}
+	var r messageQueryResponse
+	if err := decodeMessage(buf[1:], &r); err != nil {
+		return VerifQueryResponse{}, false
+	}
+	return VerifQueryResponse{LTime: uint64(r.LTime), ID: r.ID, From: r.From, Flags: r.Flags, Payload: r.Payload}, true
+}
+
+// VerifSetEventJoinIgnore sets the flag Join(existing, ignoreOld=true) holds
+// while its push/pull runs.
+func (s *Serf) VerifSetEventJoinIgnore(v bool) { s.eventJoinIgnore.Store(v) }
